@@ -349,7 +349,7 @@ class FloatEdit(NumEdit):
             if preserve_significance and isinstance(default, Decimal):
                 self.significance = default
 
-            val = str(default)
+            val = str(default).replace(".", self._decimal_separator)
 
         super().__init__(self.ALLOWED[0:10] + self._decimal_separator, caption, val, allow_negative=allow_negative)
 
